@@ -13,6 +13,9 @@ def check(ctx):
     nu = _tzr.check_utc_shortcut(ctx, rep)
     rep.floor("lookup-free UTC results in the Zinc reader", nu, 1)
     n = zincspec.check(ctx, rep)
+    from rules import tz as _tzg
+    _tzg.check_utc_guard(ctx, rep)
+    _tzg.check_offset_fields(ctx, rep)
     rep.floor("token-level table rows compared with the grammar", n, 38)
     from rules import escapes
     escapes.check_element_encoding(ctx, rep)
